@@ -542,6 +542,15 @@ func Generate(r Rand, cfg Config) *Grammar {
 			default:
 				body = &Expr{Kind: Seq, Subs: []*Expr{{Kind: And, Subs: []*Expr{{Kind: Any}}}, {Kind: pk}}}
 			}
+			if cfg.States && r.Intn(2) == 0 {
+				// ... and changes the state in every round (pop one level of an
+				// indentation stack while the predicate says there is one to pop)
+				if body.Kind == Seq {
+					body.Subs = append(body.Subs, &Expr{Kind: State})
+				} else {
+					body = &Expr{Kind: Seq, Subs: []*Expr{body, {Kind: State}}}
+				}
+			}
 			k := Star
 			if r.Intn(3) == 0 {
 				k = Plus
